@@ -669,6 +669,8 @@ func (m *Model) ClosureOf(c Consumer, lp []LeafParam) *Closure {
 					dec(d)
 					if !m.MayBeOnStack(d, c.Fn) {
 						hidden = true
+					} else {
+						cl.Loop = true
 					}
 				}
 				if !hidden && !p.Soft {
@@ -684,6 +686,7 @@ func (m *Model) ClosureOf(c Consumer, lp []LeafParam) *Closure {
 					hidden = true
 					break
 				}
+				cl.Loop = true
 			}
 			if hidden {
 				continue
@@ -698,13 +701,27 @@ func (m *Model) ClosureOf(c Consumer, lp []LeafParam) *Closure {
 }
 
 // MissingDirect reports whether a required single parameter has no provider
-// at all visible from the consumer's scope (dig's shallow check).
+// at all visible from the consumer's scope (dig's shallow check). A key that
+// has no provider but a decorator on the path (a decorator-introduced key) is
+// outside every claim and not reported.
 func (m *Model) MissingDirect(c Consumer, lp []LeafParam) bool {
 	for _, p := range lp {
 		if p.Key.IsGroup() || p.Opt {
 			continue
 		}
-		if len(m.AllProv(c.Scope, p.Key)) == 0 {
+		if len(m.AllProv(c.Scope, p.Key)) == 0 && m.NearestDec(c.Scope, p.Key, nil) == nil {
+			return true
+		}
+	}
+	return false
+}
+
+// MissingShallow: some required single parameter has no provider visible at
+// all (whatever decorators exist): dig's shallow check fails before anything
+// is resolved.
+func (m *Model) MissingShallow(c Consumer, lp []LeafParam) bool {
+	for _, p := range lp {
+		if !p.Key.IsGroup() && !p.Opt && len(m.AllProv(c.Scope, p.Key)) == 0 {
 			return true
 		}
 	}
@@ -715,6 +732,11 @@ func (m *Model) MissingDirect(c Consumer, lp []LeafParam) bool {
 // parameters (reading R1) and reports the constructors on a cycle that
 // resolution would traverse (nil if none).
 func (m *Model) RuntimeCycle(c Consumer, lp []LeafParam) []*MCtor {
+	if len(m.DByFn) > 0 {
+		// decorators hide providers and are skipped while on the stack: with
+		// any decorator registered only termination is claimed (DESIGN §5 C05)
+		return nil
+	}
 	on := map[*MCtor]bool{}
 	done := map[*MCtor]bool{}
 	var stack []*MCtor
